@@ -25,6 +25,10 @@ for lens in itertools.product((1, 2), repeat=3):
     if lens != (1, 2, 1):
         OBLIGATIONS.append(dirw(lens, 48, ["thorough"], 2400))
 
+OBLIGATIONS.append(dict(name="dir_header_max_256_entries", harness="harness/C03_dirlimit.c", sources=["lib/util/src/alloc.c", "lib/util/src/array.c"],
+    included_sources=["lib/sqfs/src/dir_writer.c"], defines=dict(NENT=258), unwind=260, flags=["--max-field-sensitivity-array-size", "300"], tiers=["quick", "thorough"], timeout=600, mem_gb=24, reach=["limit_reached"],
+    functions=["get_conseq_entry_count (lib/sqfs/src/dir_writer.c)"],
+    bound="258 entries sharing one inode block, consecutive inode numbers, 1-byte names, production metadata block size; start offset, block address and inode number base symbolic"))
 def comp(kind, tiers):
     nm = {1: "lz4", 2: "zstd"}[kind]
     return dict(name="compressor_contract_%s" % nm, harness="harness/C03_comp.c", sources=[], included_sources=["lib/sqfs/src/comp/%s.c" % nm],
